@@ -130,9 +130,17 @@ class SimSolveHandle:
                 yield m
 
 
+MAX_SOLVER_CALLS_PER_OP = 4000  # second component of the simulated clock: clingo programs built by one operation
+
+
 class SimControl:
     def __init__(self, *a, **k):
         SOLVER.calls += 1
+        if CLOCK.limit is not None and SOLVER.calls > MAX_SOLVER_CALLS_PER_OP:
+            # a loop that makes no progress but spends its time inside the solver executes few
+            # Python back-edges per second; the number of solver programs bounds it instead
+            CLOCK.limit = None
+            raise WorkBudgetExceeded("trappist_core.py:Control (solver calls)")
         SOLVER.point("control")
         self._c = clingo.Control(*a, **k)
 
